@@ -25,6 +25,15 @@ SPEC = {
          'sinks': {'C14_tp': 'tp_judge'}, 'n': {'quick': 250, 'thorough': 20000}},
         {'pkg': 'commit', 'src': 'harness/commit/c14_test.go', 'test': 'TestVerif_C14_plugin', 'fakes': True,
          'sinks': {'C14_pplug': 'pplug_judge'}, 'n': {'quick': 150, 'thorough': 8000}},
+        # histories: ONE long-lived processor / plugin, the previous outcome threaded from round to round, one case per round
+        {'pkg': 'commit/chainfee', 'pkgname': 'chainfee',
+         'src': ['harness/commit/chainfee/c14_test.go', 'harness/commit/chainfee/c14h_test.go'], 'test': 'TestVerif_C14_cfh', 'fakes': True,
+         'sinks': {'C14_cfh': 'cfh_judge'}, 'n': {'quick': 300, 'thorough': 12000}},
+        {'pkg': 'commit/tokenprice', 'pkgname': 'tokenprice',
+         'src': ['harness/commit/tokenprice/c14_test.go', 'harness/commit/tokenprice/c14h_test.go'], 'test': 'TestVerif_C14_tph', 'fakes': True,
+         'sinks': {'C14_tph': 'tph_judge'}, 'n': {'quick': 250, 'thorough': 10000}},
+        {'pkg': 'commit', 'src': ['harness/commit/c14_test.go', 'harness/commit/c14h_test.go'], 'test': 'TestVerif_C14_pluginh', 'fakes': True,
+         'sinks': {'C14_pplugh': 'pplugh_judge'}, 'n': {'quick': 200, 'thorough': 8000}},
     ],
     'known': {},
     'rule': 'dev: operand magnitudes 0..2^260, x1 placed at the deviation threshold of x2 (ppb-1/ppb/ppb+1, +-1 unit), zeros, equal, '
@@ -33,7 +42,15 @@ SPEC = {
             '(feed chain for tp) with f in 1..2, observation counts per key drawn from {2f, 2f+1, 2f+2, all}, honest spread 0 / 0.1% / 20% with up to f outliers '
             '(1, 2, 2^130, 2^256), stored values at the deviation threshold -1/0/+1 ppb and 0 / tiny, stored timestamps at now-freq -1/0/+1 ns, '
             'keys without agreed f (F08 class), null big integers (F09 class) and other malformed observations; every observation goes through '
-            'ValidateObservation, the accepted ones through Outcome; pplug: the same shapes JSON-encoded through commit.Plugin with fChain agreement counts at 2F / 2F+1. non-trivial: dev both non-zero and different; cf/tp at least one price reported; '
+            'ValidateObservation, the accepted ones through Outcome; pplug: the same shapes JSON-encoded through commit.Plugin with fChain agreement counts at 2F / 2F+1. '
+            'cfh / tph / pplugh (histories): ONE processor built with NewProcessor (ONE plugin built with NewPlugin) over ONE home-chain fake lives through 3..10 rounds, one case per round; '
+            'the previous outcome handed to round k+1 is the Outcome value round k returned (JSON round trip; also after an error exit, as commit.Plugin.Outcome stores it) or an arbitrary '
+            'non-empty one (prices of chains / tokens with and without consensus this round, foreign keys); a simulated destination stores what was reported (fresh), is wiped, or sits at the '
+            'deviation / heartbeat boundary; between rounds change: role map (an oracle gains / loses a chain), f of a chain, prices, clock step (1 s .. 2x frequency, +-1 ns at the frequency, backwards '
+            'across a heartbeat boundary), observers (all / 2F+1 / 2f+1 / 2F / 2f / 1 / 0), agreement on f(dest) / f(source) / f(feed) (all / 2F+1 / 2F / 0), per-key counts at 0 / 2f / 2f+1, '
+            'native price absent, stored update reported by 0 / 2f / 2f+1 / all destination readers, quiet rounds (no key reaches its threshold), outliers, malformed observations; '
+            'half of the histories are calm (nominal rounds, exactly ONE deviation per round), half wild (all aspects drawn independently); '
+            'non-trivial: dev both non-zero and different; cf/tp at least one price reported; history parts: the previous outcome handed to the round is non-empty; '
             'distinct by full input',
     'trusted': ['home-chain role lookups answered by the scripted fake vHomeChain',
                 'big.Int arithmetic (Mul, Div = Euclidean, Lsh, Rsh, Or, And, Cmp) behaves as documented; Z in the model',
@@ -42,16 +59,25 @@ SPEC = {
                 'deviation thresholds in the config are non-nil and fit int64; agreed f values are below 2^62 '
                 '(above, Go int(thresh) turns negative and the aggregator threshold vanishes: modelled by agg_thr, hypotheses say f < 2^62)'],
     'assumptions': ['libocr delivers at most one observation per oracle per round and calls ValidateObservation before Outcome',
+                    'the configuration of a processor / plugin instance does not change during its life (a configuration change makes libocr build a new plugin instance)',
                     'the repairs fixes/F08.patch and fixes/F09.patch are applied (the check reports VIOLATION on a tree without them)'],
     'level_text': 'Proof: Coq theorems over the executable model: the median of any list of >= 2f+1 values with <= f faulty ones lies between the honest '
                   'minimum and maximum (also component-wise for fee updates and timestamps); every aggregated key met its 2f+1 threshold (refuted for the '
                   'pre-repair aggregator); Deviates as an integer inequality incl. zero cases and symmetry; USD-per-unit-gas floor bounds; packing round trip with the '
                   '112-bit shift; a token / gas price is selected iff no stored value, heartbeat elapsed or deviation, output strictly sorted by key; validated '
                   'observations contain no null big integer. Correspondence: Deviates, CalculateUsdPerUnitGas, To/FromPackedFee, Median and both processors '
-                  '(ValidateObservation + Outcome) run against the model and a direct restatement of the property every run',
+                  '(ValidateObservation + Outcome) run against the model and a direct restatement of the property every run. '
+                  'Histories (C14_history_*): for every configuration, every initial previous outcome and every list of rounds run through one long-lived processor with the returned Outcome value of '
+                  'round k handed to round k+1, round k equals the processor run on round k\'s role map and observations alone (induction over the round list; the previous outcome does not occur), hence every '
+                  'gas / token price of every round of every history satisfies the derivation, median-robustness and selection theorems over THAT round\'s accepted observations, and a round without consensus '
+                  '(error exit, nothing-to-update exit) hands back no price; the variant that hands the previous outcome back on those exits is refuted by a three-round witness. The history parts judge every '
+                  'round of the long-lived instances against that memoryless step function',
     'level_note': 'Trusted: Coq kernel, hand-written model, differential harness. No axioms. Plugin level: commit.Plugin (NewPlugin, N in {4,7}, F in {1,2}, f(source) != f(dest)) '
-                  'ValidateObservation + Outcome + Reports: the report PriceUpdates must equal the outcome prices (order, nothing lost or added).',
+                  'ValidateObservation + Outcome + Reports: the report PriceUpdates must equal the outcome prices (order, nothing lost or added). '
+                  'History parts: instances built by the real constructors, kept alive across rounds; configuration (frequencies, thresholds, F, destination, feed chain) is fixed per instance as in production, '
+                  'so a memo of configuration values raises no alarm while a memo of anything read per round (role map, agreed f, stored updates, clock, previous outcome) does.',
     'modelled': 'mathslib.Deviates / CalculateUsdPerUnitGas, chainfee To/FromPackedFee / ChainFeeUpdateAggregator / ValidateObservation / '
                 'getConsensusObservation / Outcome / getGasPricesToUpdate, tokenprice ValidateObservation / getConsensusObservation / '
-                'selectTokensForUpdate / Outcome, consensus.Median / GetConsensusMapAggregator / TimestampedBigAggregator',
+                'selectTokensForUpdate / Outcome, consensus.Median / GetConsensusMapAggregator / TimestampedBigAggregator; '
+                'over histories: chainfee.NewProcessor / tokenprice.NewProcessor instances and the price part of commit.Plugin.Outcome / Reports with OutcomeContext.PreviousOutcome threaded',
 }
